@@ -347,16 +347,16 @@ impl<CS: BbsCiphersuite> PoKSignature<BBSplus<CS>> {
         CS::Expander: for<'a> ExpandMsg<'a>,
     {
         let proof = self.to_bbsplus_proof();
-        let disclosed_messages = disclosed_messages.unwrap_or(&[]);
-        let mut disclosed_indexes = disclosed_indexes.unwrap_or(&[]).to_vec();
-        disclosed_indexes.sort();
-        disclosed_indexes.dedup();
+        let (disclosed_indexes, disclosed_messages) = order_disclosed(
+            disclosed_indexes.unwrap_or(&[]),
+            disclosed_messages.unwrap_or(&[]),
+        )?;
 
         let U = proof.m_cap.len();
         let R = disclosed_indexes.len();
 
         let disclosed_message_scalars =
-            BBSplusMessage::messages_to_scalar::<CS>(disclosed_messages, CS::API_ID)?;
+            BBSplusMessage::messages_to_scalar::<CS>(&disclosed_messages, CS::API_ID)?;
 
         let generators = Generators::create::<CS>(U + R + 1, Some(CS::API_ID));
 
@@ -415,14 +415,14 @@ impl<CS: BbsCiphersuite> PoKSignature<BBSplus<CS>> {
     {
         let proof = self.to_bbsplus_proof();
         let L = L.unwrap_or(0);
-        let disclosed_messages = disclosed_messages.unwrap_or(&[]);
-        let disclosed_committed_messages = disclosed_committed_messages.unwrap_or(&[]);
-        let mut disclosed_indexes = disclosed_indexes.unwrap_or(&[]).to_vec();
-        disclosed_indexes.sort();
-        disclosed_indexes.dedup();
-        let mut disclosed_commitment_indexes = disclosed_commitment_indexes.unwrap_or(&[]).to_vec();
-        disclosed_commitment_indexes.sort();
-        disclosed_commitment_indexes.dedup();
+        let (disclosed_indexes, disclosed_messages) = order_disclosed(
+            disclosed_indexes.unwrap_or(&[]),
+            disclosed_messages.unwrap_or(&[]),
+        )?;
+        let (disclosed_commitment_indexes, disclosed_committed_messages) = order_disclosed(
+            disclosed_commitment_indexes.unwrap_or(&[]),
+            disclosed_committed_messages.unwrap_or(&[]),
+        )?;
 
         let api_id = CS::API_ID_BLIND;
 
@@ -440,8 +440,8 @@ impl<CS: BbsCiphersuite> PoKSignature<BBSplus<CS>> {
         }
 
         let (message_scalars, generators) = prepare_parameters::<CS>(
-            Some(disclosed_messages),
-            Some(disclosed_committed_messages),
+            Some(&disclosed_messages),
+            Some(&disclosed_committed_messages),
             L + 1,
             M + 1, //TODO: Edit taken from Grotto bbs sig library
             None, 
@@ -820,6 +820,27 @@ fn proof_finalize(
 /// # Output:
 /// a result: [`Ok`] or [`Error`].
 ///
+/// Pairs every disclosed message with its index and orders the pairs by index: the lists
+/// are consumed position by position, in ascending index order.
+fn order_disclosed(
+    indexes: &[usize],
+    messages: &[Vec<u8>],
+) -> Result<(Vec<usize>, Vec<Vec<u8>>), Error> {
+    if indexes.len() != messages.len() {
+        return Err(Error::PoKSVerificationError(
+            "len messages != len indexes".to_owned(),
+        ));
+    }
+    let mut pairs: Vec<(usize, &Vec<u8>)> = indexes.iter().copied().zip(messages).collect();
+    pairs.sort_by_key(|&(i, _)| i);
+    if pairs.windows(2).any(|w| w[0].0 == w[1].0) {
+        return Err(Error::PoKSVerificationError(
+            "duplicate disclosed index".to_owned(),
+        ));
+    }
+    Ok(pairs.into_iter().map(|(i, m)| (i, m.clone())).unzip())
+}
+
 fn core_proof_verify<CS>(
     pk: &BBSplusPublicKey,
     proof: &BBSplusPoKSignature,
